@@ -699,6 +699,20 @@ func main() {
 		fragStatus[k] = v
 	}
 	// end trans4
+	// trans7: After, Before, Once, Retry, RetryWithDelay of func.go + cache.Item.Val (frag_func.go) -> Gen/FuncWrap.lean
+	fwLean, fwStatus := translateFuncWrap(dir)
+	writeIfChanged(filepath.Join(outDir, "FuncWrap.lean"), fwLean)
+	for k, v := range fwStatus {
+		fragStatus[k] = v
+	}
+	// end trans7
+	// trans9: cache/lrucache.go at pointer level over the store of Model/LruPtr.lean (frag_lru.go) -> Gen/Lru.lean
+	lruLean, lruStatus := translateLru()
+	writeIfChanged(filepath.Join(outDir, "Lru.lean"), lruLean)
+	for k, v := range lruStatus {
+		fragStatus[k] = v
+	}
+	// end trans9
 	if len(os.Args) > 3 {
 		b, _ := json.MarshalIndent(map[string]any{"lockTable": tab, "effects": effs, "consts": cs, "regeneratedFunctions": fragStatus}, "", " ")
 		writeIfChanged(os.Args[3], string(b)+"\n")
